@@ -180,6 +180,27 @@ def cases(rng, tier):
                                       dict(lq=[["close", 3, 1]], fq=[], ll=[], fl=[])],
                     chunks=[5, 1000, 70000], turn_each_chunk=False, mseed=3))
     out.append(dict(kind="sel", gens=[dict(lq=[], fq=[], ll=[], fl=[])], chunks=[3], turn_each_chunk=True, mseed=4))
+    # corpus: flow control and lifecycle around an honest stream.  (1) a slow consumer pauses the connection while it
+    # is being handed the n-th record of a read that holds several more, and resumes later, with nothing else
+    # arriving; (2) the connection ends right after the read(s) that brought the KCM and the first records, before
+    # the Connector's eventual accept turn (sel world) / before select() (conn world).  Everything that arrived
+    # completely must still reach the manager.
+    burst = [["open", 0, 1, ""], ["data", 1, 1, "aa"], ["data", 2, 1, "bb"], ["data", 3, 1, "cc"], ["data", 4, 1, "dd"],
+             ["close", 5, 1]]
+    for i, pa in enumerate(([1], [2], [3], [1, 3], [5], [6])):
+        out.append(dict(kind="conn", relay=bool(i % 2), leader=bool(i % 3), recs=burst, chunk=["all", "frames", "rand"][i % 3],
+                        select_after=[0, 99][i % 2], mut=None, mseed=60 + i, pause_at=pa))
+        out.append(dict(kind="sel", chunks=[[10**6], [40], [10**6]][i % 3], turn_each_chunk=bool(i % 2), mseed=60 + i,
+                        gens=[dict(lq=burst[:2] if i % 2 else [], fq=[], ll=burst[2:] if i % 2 else burst,
+                                   fl=[["data", 0, 3, "01"], ["data", 1, 3, "02"], ["data", 2, 3, "03"], ["close", 3, 3]],
+                                   fpause=pa, lpause=[pa[0] % 3 + 1] if i % 2 else [])]))
+    for i in range(6):
+        out.append(dict(kind="conn", relay=bool(i % 2), leader=bool(i % 3), recs=burst[:i], chunk=["all", "rand", "one"][i % 3],
+                        select_after=0, mut=None, mseed=70 + i, lose=True))
+        out.append(dict(kind="sel", chunks=[[10**6], [30], [7, 100]][i % 3], turn_each_chunk=bool(i % 2), mseed=70 + i,
+                        gens=[dict(lq=burst[:i + 1], fq=burst[:i % 3], ll=[], fl=[],
+                                   cut=dict(side="FL"[i // 3 % 2] if i != 5 else "F", link=0, extra=i % 3)),
+                              dict(lq=burst[i + 1:], fq=[], ll=[["ack", i]], fl=[])]))
     # corpus: several candidate connections per generation, all built by the real Connector's factories (a direct
     # link dialled by one side and accepted by the other's listener, a delayed relay link dialled by both); the
     # later candidate's two connectionMade calls land at every point of the first candidate's handshake
@@ -257,6 +278,11 @@ def cases(rng, tier):
                         select_after=rng.choice([0, 1, 2, 99]),
                         mut=rng.choice([None, None, "flip", "flip"] + MUTS),
                         mseed=rng.randrange(10**6)))
+        r8 = rng.random()
+        if r8 < 0.2:
+            out[-1]["pause_at"] = sorted({rng.randrange(1, 5) for _ in range(rng.choice([1, 2]))})
+        elif r8 < 0.3:
+            out[-1]["lose"] = True
     return out
 
 
@@ -591,17 +617,26 @@ def run_conn(case):
     mgr = mock.Mock()
     alsoProvides(mgr, IDilationManager)
     got = []
-    mgr.got_record = lambda r: got.append(r)
+    pause_at = set(case.get("pause_at") or [])      # the consumer pauses the connection while being handed these
+    paused = []
+
+    def got_record(r):
+        got.append(r)
+        if len(got) in pause_at and not paused:
+            paused.append(len(got))
+            p.pauseProducing()
+    mgr.got_record = got_record
     from wormhole.eventual import EventualQueue
     from twisted.internet.task import Clock
     eq = EventualQueue(Clock())
     noise = ToyNoise()
     p = DilatedConnectionProtocol(eq, role, "desc", conn, noise, outbound, inbound)
-    t = FakeTransport()
+    t = PausableTransport()
     p.transport = t
     if case["relay"]:
         p.use_relay(b"please relay\n")
     p.connectionMade()
+    lose = bool(case.get("lose"))                   # the connection ends after the last byte, before select()
 
     def summary():
         fr = p._record._framer
@@ -627,9 +662,25 @@ def run_conn(case):
             "chunk:" + ch, "mut:" + str(mut)]
     select_error = []
 
+    def do_resume():
+        # the consumer catches up and resumes (Inbound.subchannel_resumeProducing -> resumeProducing())
+        nonlocal dead
+        if paused and not dead:
+            del paused[:]
+            lines.append("resume")
+            try:
+                p.resumeProducing()
+                exp.append(summary())
+            except Exception as e:
+                dead = type(e).__name__
+                exp.append(dead + " " + summary())
+
     def do_select():
         nonlocal selected
         selected = True
+        if lose:
+            lines.append("lost")
+            exp.append(_catch(lambda: (p.connectionLost(None), summary())[1]))
         lines.append("select")
         try:
             p.select(mgr)
@@ -637,6 +688,7 @@ def run_conn(case):
         except Exception as e:   # select() on a connection that offered itself as candidate must work
             exp.append(type(e).__name__)
             select_error.append(type(e).__name__)
+        do_resume()
 
     for ci, c in enumerate(chunks):
         lines.append("data " + hx(c))
@@ -658,12 +710,17 @@ def run_conn(case):
             dead_at = ci
         if not selected:
             delivered_before_select = max(delivered_before_select, len(got))
+        do_resume()
         if not dead and not selected and conn.add_candidate.called:
             nsel += 1
-            if nsel > case["select_after"]:
+            if nsel > case["select_after"] and not lose:
                 do_select()
     if not dead and not selected and conn.add_candidate.called:
         do_select()
+    if pause_at:
+        tags.append("conn:consumer-pauses")
+    if lose:
+        tags.append("conn:lost-before-select")
     if dead:
         tags.append("dead:" + dead)
     if any(len(pc[1]) > MAXP + 100 for pc in honest_pieces):
@@ -849,6 +906,26 @@ class SessionNoise(ToyNoise):
         return ToyNoise.decrypt(self, c)
 
 
+class PausableTransport(FakeTransport):
+    """FakeTransport + the IPushProducer half of a TCP transport: while paused it reads nothing (the harness
+    keeps the bytes in flight)"""
+
+    def __init__(self):
+        FakeTransport.__init__(self)
+        self.paused = False
+        self.pauses = 0
+
+    def pauseProducing(self):
+        self.paused = True
+        self.pauses += 1
+
+    def resumeProducing(self):
+        self.paused = False
+
+    def stopProducing(self):
+        self.paused = True
+
+
 class _SelSide:
     """one peer in one generation: a real Connector and the manager stand-in"""
 
@@ -865,8 +942,10 @@ class _SelSide:
         self.ends = []
         self.mgr = mock.Mock()
         alsoProvides(self.mgr, IDilationManager)
-        self.mgr.got_record = self.got.append
+        self.mgr.got_record = self._got_record
         self.mgr.connector_connection_made = self._connection_made
+        self.pause_at = set()                 # after how many records the consumer pauses the connection
+        self.paused = False
         self.connector = dco.Connector(b"k" * 32, None, self.mgr, clock, self.eq, True, None, None,
                                        ("%016x" % (gen * 2 + (1 if self.leader else 0))), role)
 
@@ -874,6 +953,26 @@ class _SelSide:
         self.conn = c
         for r in self.queued:                 # Outbound.use_connection: re-send everything un-acked, at once
             c.send_record(r)
+
+    def _got_record(self, r):
+        self.got.append(r)
+        # a slow subchannel consumer: Inbound.subchannel_pauseProducing -> connection.pauseProducing(), called from
+        # inside the delivery of a record (Inbound only knows the connection once connector_connection_made ran)
+        if len(self.got) in self.pause_at and self.conn is not None and not self.paused:
+            self.paused = True
+            self.conn.pauseProducing()
+
+    def resume(self):
+        """Inbound.subchannel_resumeProducing -> connection.resumeProducing()"""
+        self.paused = False
+        w = self.winner()
+        try:
+            self.conn.resumeProducing()
+        except Exception as e:
+            if w is not None:
+                w.dead = type(e).__name__
+        if w is not None:
+            w.events.append(("resume", None, (w.dead + " " if w.dead else "") + w.summary()))
 
     def winner(self):
         for e in self.ends:
@@ -905,14 +1004,17 @@ class _SelEnd:
         else:
             self.p = dco.InboundConnectionFactory(side.connector).buildProtocol(addr)
         self.outbound = relay or outbound
-        self.t = FakeTransport()
+        self.t = PausableTransport()
         self.p.transport = self.t
         self.taken = 0                        # how many of t.written have been moved on
         self.inbox = []                       # chunks on their way to this end
+        self.rx_bytes = 0                     # bytes of the peer end's writes that dataReceived has been given
+        self.end_off = []                     # per handed record: offset (in this end's writes) at which it ends
         self.handed, self.wire, self.events = [], [], []
         self.started = False
         self.dead = None
         self.closed = False
+        self.cut_done = False
         side.ends.append(self)
 
     def start(self):
@@ -939,6 +1041,8 @@ class _SelEnd:
             except Exception as e:
                 self.wire.append(type(e).__name__)
                 raise
+            finally:
+                self.end_off.append(sum(len(w) for w in self.t.written[(1 if self.relay else 0):]))
         rec.send_record = logged
 
     def summary(self):
@@ -952,8 +1056,10 @@ class _SelEnd:
                 f"hs={'true' if hs else 'false'} kcm={'true' if kcm else 'false'} cand={'false' if st == 'unselected' else 'true'} "
                 f"queued={len(p._inbound_record_queue)} mgr=[{'; '.join(show_rec(r) for r in got)}]")
 
-    def receive(self, chunk):
+    def receive(self, chunk, from_peer=True):
         lost_before = self.t.lost
+        if from_peer:
+            self.rx_bytes += len(chunk)
         try:
             self.p.dataReceived(chunk)
             if self.t.lost > lost_before:
@@ -985,9 +1091,9 @@ def run_sel(case):
 
     with mock.patch.object(dco, "build_noise", SessionNoise):
         for gi, g in enumerate(case["gens"]):
-            clock = Clock()
-            L = _SelSide(LEADER, clock, gi, [mk_rec(expand_rec(sp)) for sp in g["lq"]])
-            F = _SelSide(FOLLOWER, clock, gi, [mk_rec(expand_rec(sp)) for sp in g["fq"]])
+            # one reactor per peer: flushing one side's eventual queue must not run the other side's turn
+            L = _SelSide(LEADER, Clock(), gi, [mk_rec(expand_rec(sp)) for sp in g["lq"]])
+            F = _SelSide(FOLLOWER, Clock(), gi, [mk_rec(expand_rec(sp)) for sp in g["fq"]])
             # candidate connections: (leader end, follower end); a direct link is dialled by one side and
             # accepted by the other's listener, a relay link is dialled by both
             links = []
@@ -999,6 +1105,18 @@ def run_sel(case):
                 tags.append("sel:relay")
             tick = [0]
             relay_ok_sent = set()
+            for X, key in ((L, "lpause"), (F, "fpause")):
+                X.pause_at = set(g.get(key) or [])
+            if g.get("lpause") or g.get("fpause"):
+                tags.append("sel:consumer-pauses")
+            # the TCP connection of one candidate ends right after the read(s) that brought the KCM — before the
+            # Connector's eventual `accept` turn has run on that side
+            cut = g.get("cut")
+            cut_end = None
+            if cut:
+                tags.append("sel:lost-before-accept")
+                cut_end = links[cut["link"]][0 if cut["side"] == "L" else 1]
+            holding = set()                   # sides whose eventual turn has not come yet
 
             def close(k):
                 for e in links[k]:
@@ -1006,8 +1124,10 @@ def run_sel(case):
                         e.closed = True
                         try:
                             e.p.connectionLost(None)
-                        except Exception:
-                            pass
+                            if hasattr(e.p, "_record"):
+                                e.events.append(("lost", None, e.summary()))
+                        except Exception as ex:
+                            e.events.append(("lost", None, type(ex).__name__))
                     e.closed = True
                     e.inbox = []
 
@@ -1022,12 +1142,12 @@ def run_sel(case):
                         data = b"".join(X.t.written[X.taken:])
                         X.taken = len(X.t.written)
                         if data:
-                            Y.inbox.extend(split(data))
+                            Y.inbox.extend((c, True) for c in split(data))
                             moved = True
                     if a.relay and a.started and b.started and k not in relay_ok_sent:
                         relay_ok_sent.add(k)          # the relay pairs the two sides up
-                        a.inbox.insert(0, b"ok\n")
-                        b.inbox.insert(0, b"ok\n")
+                        a.inbox.insert(0, (b"ok\n", False))
+                        b.inbox.insert(0, (b"ok\n", False))
                         moved = True
                 return moved
 
@@ -1040,11 +1160,21 @@ def run_sel(case):
                             if not e.started and not e.closed and e.start_tick <= tick[0]:
                                 e.start()
                     progressed = collect()
-                    ready = [e for lk in links for e in lk if e.inbox and e.started and not e.closed]
+                    ready = [e for lk in links for e in lk if e.inbox and e.started and not e.closed and not e.t.paused]
                     if ready:
                         e = ready[tick[0] % len(ready)]
-                        e.receive(e.inbox.pop(0))
+                        was = automat_state(e.p, 'm')
+                        e.receive(*e.inbox.pop(0))
                         progressed = True
+                        if e is cut_end and not e.cut_done and was == "unselected" and automat_state(e.p, 'm') != "unselected":
+                            # same reactor iteration: `extra` more reads, then end-of-stream, and only then the turn
+                            e.cut_done = True
+                            for _ in range(cut["extra"]):
+                                collect()
+                                if e.inbox and not e.dead:
+                                    e.receive(*e.inbox.pop(0))
+                            collect()
+                            close(cut["link"])
                         if case["turn_each_chunk"] or not any(x.inbox for lk in links for x in lk):
                             L.turn()
                             F.turn()
@@ -1062,7 +1192,18 @@ def run_sel(case):
                     idle = 0 if progressed else idle + 1
                     tick[0] += 1
 
-            run_until_quiet()
+            def settle():
+                # run until nothing moves; a consumer that paused the connection resumes it once things are quiet
+                run_until_quiet()
+                for _ in range(12):
+                    again = [X for X in (L, F) if X.paused]
+                    if not again:
+                        break
+                    for X in again:
+                        X.resume()
+                    run_until_quiet()
+
+            settle()
             # records written once the connection is in use
             for X, later in ((L, g["ll"]), (F, g["fl"])):
                 for sp in later:
@@ -1072,7 +1213,7 @@ def run_sel(case):
                             X.conn.send_record(mk_rec(expand_rec(sp)))
                         except Exception:
                             pass               # recorded in the end's `wire`; judged below
-            run_until_quiet()
+            settle()
             if L.queued:
                 tags.append("sel:leader-backlog")
             if F.queued:
@@ -1089,11 +1230,28 @@ def run_sel(case):
                     for kind, chunk, summ in Y.events:
                         if kind == "made":
                             continue
-                        lines.append("select" if kind == "select" else "data " + hx(chunk))
+                        lines.append(kind if kind in ("select", "lost", "resume") else "data " + hx(chunk))
                         exp.append(summ)
             # ---- oracle: every record handed to an L2 connection is recovered identically by the peer
             lw, fw = L.winner(), F.winner()
+            # (a) whatever else happens (pauses, the connection ending early): a side that selected a connection has
+            # been given exactly the records that arrived on it completely, in order — nothing received is withheld
+            for Y, yw in ((L, lw), (F, fw)):
+                if yw is None or (yw.dead and yw.dead != "Disconnect"):
+                    continue
+                xe = links[yw.link_no][1 if Y.leader else 0]
+                arrived = [show_rec(r) for r, off, w in zip(xe.handed, xe.end_off, xe.wire)
+                           if isinstance(w, bytes) and off <= yw.rx_bytes and not isinstance(r, KCM)]
+                gotp = [show_rec(r) for r in Y.got]
+                if not yw.dead and gotp != arrived:
+                    viol.append(("lossless", f"generation {gi + 1}: the {Y.name} selected candidate {yw.link_no} and received "
+                                 f"{len(arrived)} complete records {brief(arrived)} on it, but its manager was given "
+                                 f"{len(gotp)}: {brief(gotp)}"
+                                 + (" (the consumer paused and resumed the connection)" if Y.pause_at else "")
+                                 + (" (the connection ended before the accept turn)" if cut and yw is cut_end else "")))
             for X, Y, xw, yw in ((L, F, lw, fw), (F, L, fw, lw)):
+                if cut or viol:
+                    break                       # a deliberately cut generation is judged by (a) alone
                 xn, yn = X.name, Y.name
                 want = [show_rec(mk_rec(expand_rec(sp))) for sp in (g["lq"] + g["ll"] if X.leader else g["fq"] + g["fl"])]
                 handed = [show_rec(r) for r in xw.handed if not isinstance(r, KCM)] if xw else []
@@ -1157,6 +1315,13 @@ def rand_sel_case(rng):
         gens.append(dict(links=links, lq=recs(0, rng.choice([0, 0, 1, 2, 4]), big=True), fq=recs(1, rng.choice([0, 0, 1, 3])),
                          ll=recs(0, rng.choice([0, 1, 3])) + ([["ack", rng.choice(BOUND32)]] if rng.random() < 0.3 else []),
                          fl=recs(1, rng.choice([0, 1, 2])) + ([["ping", "01020304"]] if rng.random() < 0.3 else [])))
+        r8 = rng.random()
+        if r8 < 0.25:                         # a slow consumer on one or both sides
+            gens[-1]["fpause"] = sorted({rng.randrange(1, 6) for _ in range(rng.choice([1, 1, 2]))})
+            if rng.random() < 0.4:
+                gens[-1]["lpause"] = [rng.randrange(1, 5)]
+        elif r8 < 0.4:                        # the selected-to-be connection ends before the accept turn
+            gens[-1]["cut"] = dict(side=rng.choice("FFL"), link=first, extra=rng.choice([0, 0, 1, 2, 5]))
         if rng.random() < 0.5:                # a keepalive exchange: one side pings, the other answers with the same id
             tid = rng.choice(TWIN_IDS)
             a, b = rng.choice([("ll", "fl"), ("fl", "ll")])
@@ -1197,6 +1362,10 @@ def shrink(case):
             if len(gens) > 1:
                 yield dict(case, gens=gens[:i] + gens[i + 1:])
         for i, g in enumerate(gens):
+            for key in ("fpause", "lpause", "cut"):
+                if g.get(key):
+                    yield dict(case, gens=gens[:i] + [{k: v for k, v in g.items() if k != key}] + gens[i + 1:])
+        for i, g in enumerate(gens):
             lk = g.get("links") or []
             for j in range(len(lk)):
                 if len(lk) > 1:
@@ -1210,6 +1379,9 @@ def shrink(case):
         if case["chunks"] != [10**6]:
             yield dict(case, chunks=[10**6])
     if case.get("kind") == "conn":
+        for key in ("pause_at", "lose"):
+            if case.get(key):
+                yield {k: v for k, v in case.items() if k != key}
         recs = case["recs"]
         for i in range(len(recs)):
             c = dict(case)
